@@ -265,3 +265,54 @@ func (k *K) sigHeaderRule(id string) {
 	walk(start, 0)
 	k.r.Check(sites >= 2 && encoders >= 1, id+"/chain", "BIND", fnShort(start), k.w.Pos(start.Fn.Pos()), "ecrecover -> seal hash -> RLP encoder chain found", "cannot follow the signature-hash computation from ecrecover to the RLP encoder")
 }
+
+// tmProcessedTimeRule: the Tendermint client's confirmation delay is measured from the time
+// the consensus state in force at a height was processed. update() stores a (possibly new)
+// consensus state for the header's height on every call, so every path through it must also
+// (re)write the processed time of that height, for the header's own height, unconditionally:
+// otherwise a root replaced at a tracked height inherits an old processed time and proofs
+// against it pass the delay check immediately.
+func (k *K) tmProcessedTimeRule(id string) {
+	fi := k.function(pTM, "update")
+	if fi == nil {
+		return
+	}
+	fn := fnShort(fi)
+	var sets []ssa.CallInstruction
+	heightOK := map[ssa.CallInstruction]bool{}
+	for _, b := range fi.Fn.Blocks {
+		for _, in := range b.Instrs {
+			ci, ok := in.(ssa.CallInstruction)
+			if !ok {
+				continue
+			}
+			for _, op := range k.OpsAt(fi, ci, 3) {
+				s := op.Shape.String()
+				if op.Op == "Set" && strings.Contains(s, "/processedTime") {
+					sets = append(sets, ci)
+					if strings.Contains(s, "$3.") {
+						heightOK[ci] = true
+					}
+				}
+			}
+		}
+	}
+	isSet := func(in ssa.Instruction) bool {
+		for _, c := range sets {
+			if ssa.Instruction(c) == in {
+				return true
+			}
+		}
+		return false
+	}
+	ok, site, detail := len(sets) > 0, k.w.Pos(fi.Fn.Pos()), ""
+	for _, rt := range fi.Returns() {
+		if p := fi.PathAvoiding(rt.Instr, isSet); p != nil {
+			ok, site, detail = false, fi.InstrPos(rt.Instr), " (path "+fi.DescribePath(p)+")"
+		}
+	}
+	k.r.Check(ok, id+"/always", "MUST-PASS", fn, site, "every update records the processed time of the header's height", "update() can return without writing the processed time"+detail+": a consensus state stored for an already tracked height keeps the old processed time and its proofs skip the confirmation delay")
+	for _, c := range sets {
+		k.r.Check(heightOK[c], id+"/height", "KEY-SHAPE", fn, fi.InstrPos(c), "processed time written for the header's own height", "the processed time is not written under the header's height")
+	}
+}
